@@ -52,6 +52,9 @@ def _helper_symbols(hm):
     return out
 
 
+from rules import _composites as _cmp
+
+
 def run(ck):
     m = ck.repo.mod(T)
     hm = ck.repo.mod(H)
@@ -99,30 +102,15 @@ def run(ck):
                     ok = isinstance(v, ast.Call) and callee_attr(v) in sym and SMT2.get(sym[callee_attr(v)][0]) == "NEG" and [norm(a) for a in v.args] == ["res"]
                     ck.ob("R1", "smt2:%s" % key, ok, m.where(b["node"]), "unary minus must be bvneg")
                 elif op == "parity":
-                    ok = "arg=bv_extract(7,0,res)" in body and "res=bit_vec_val(1,1)" in body and "foriinrange(8):" in body and \
-                        "res=bvxor(res,bv_extract(i,i,arg))" in body
-                    ck.ob("R1", "smt2:%s" % key, ok, m.where(b["node"]), "parity must be 1 xor the 8 low bits")
-                elif op == "cnttrailzeros":
-                    # default (no bit set) must be the width; bits scanned from the top down to bit 0, lowest wins
-                    ok = "res=smt2_ite(cond,bvsub(size_smt2,one_smt2),size_smt2)" in body and "foriinrange(size-2,-1,-1):" in body and \
-                        "res=smt2_ite(cond,i_smt2,res)" in body and "op=bvand(src,bvshl(one_smt2,i_smt2))" in body
-                    ck.ob("R1", "smt2:%s" % key, ok, m.where(b["node"]),
-                          "cnttrailzeros: the no-bit-set default must be the width (sibling z3 translation: If(src == 0, size, ...)), every bit down to 0 scanned")
-                elif op == "cntleadzeros":
-                    ok = "res=smt2_ite(cond,bvsub(size_smt2,one_smt2),size_smt2)" in body and "cond=smt2_distinct(bvand(src,one_smt2),zero_smt2)" in body and \
-                        "foriinrange(size-1,0,-1):" in body and "index=-i%size" in body and "value_smt2=bit_vec_val(size-(index+1),size)" in body
-                    ck.ob("R1", "smt2:%s" % key, ok, m.where(b["node"]),
-                          "cntleadzeros: default must be the width and bit 0 alone must give width-1 (sibling z3 translation counts index 0 as size-1)")
+                    _cmp.parity_rule(ck, "R1", "smt2", m.where(b["node"]))
+                elif op in ("cnttrailzeros", "cntleadzeros"):
+                    _cmp.zero_count_rule(ck, "R1", "smt2", op, m.where(b["node"]))
                 else:
                     ck.ob("R1", "smt2:%s" % key, False, m.where(b["node"]), "unary operator %r has no reference skeleton" % op)
     if n_br < 20:
         raise AnalysisError("TranslatorSMT2.from_ExprOp: only %d operator branches extracted" % n_br)
-    # rotation helpers: a <<< b = (a << s) | (a >> (size - s)) with s = b & (size-1); mirrored for >>>
-    for name, first, second in (("bv_rotate_left", "bvshl", "bvlshr"), ("bv_rotate_right", "bvlshr", "bvshl")):
-        f = hm.func(name)
-        t = norm(ast.Module(body=f.body, type_ignores=[])).replace(" ", "")
-        ok = "shift=bvand(b,bvsub(s,bit_vec_val(1,size)))" in t and ("rotate=bvor(%s(a,shift),%s(a,bvsub(s,shift)))" % (first, second)) in t
-        ck.ob("R1", "helper:%s" % name, ok, hm.where(f), "%s must be (%s a s) | (%s a (size - s)) with s = b mod size" % (name, first, second))
+    # rotations: decided on the term the helpers build (helper extraction / renaming / operand order do not matter)
+    _cmp.smt_rotation_rule(ck, "R1", hm.where(hm.func("bv_rotate_left")))
 
     # ---------------------------------------------------------------- R2
     meths = m.methods("TranslatorSMT2")
